@@ -135,6 +135,63 @@ def pyval_cases(rng):
     return cases
 
 
+COMP_ITEMS = 6
+
+
+def impl_items(case):
+    """[n, atoms...] (the C03 atom encoding): Message.from_bytes on a list of arbitrary items"""
+    import mido
+    from numbers import Integral
+    from props import c03
+    atoms, i = [], 1
+    for _ in range(case[0]):
+        k = case[i]
+        if k in (0, 1, 2):
+            atoms.append((('int', 'bool', 'float')[k], case[i + 1])); i += 2
+        elif k == 3:
+            n = case[i + 1]; atoms.append(('str', ''.join(map(chr, case[i + 2:i + 2 + n])))); i += 2 + n
+        elif k == 4:
+            atoms.append(('none',)); i += 1
+        else:
+            atoms.append(('other',)); i += 1
+    items = [c03.py_atom(a) for a in atoms]
+    fail = None
+    try:
+        m = mido.Message.from_bytes(items)
+        out = [0] + canon.msg_ints(m)
+        if not all(isinstance(x, Integral) for x in items) or not valid_msg(m) or m.bytes() != [int(x) for x in items]:
+            fail = ('items-accepted', 'from_bytes(%r) returned %r' % (items, m))
+    except (ValueError, TypeError) as e:
+        out = [-1, core.exn_code(e)]
+    except Exception as e:  # noqa: BLE001
+        out = [-1, core.exn_code(e)]
+        fail = ('items-raises:' + type(e).__name__, 'from_bytes(%r) raised %r' % (items, e))
+    return out, fail, 'items'
+
+
+def item_cases(rng):
+    from props import c03
+    good = [[0x90, 1, 2], [0x80, 0, 127], [0xc5, 9], [0xe0, 1, 2], [0xf0, 1, 2, 0xf7], [0xf0, 0xf7], [0xf1, 5], [0xf2, 1, 2], [0xf3, 4], [0xf6], [0xf8], [0xfe]]
+    bad_atoms = [('float', 0x90), ('float', 2), ('float', 0xf8), ('float', 0xf7), ('float', 1), ('str', 'a'), ('str', '1'), ('none',), ('other',), ('bool', 1), ('bool', 0),
+                 ('float', 0xf0), ('int', 256), ('int', -1), ('int', 2 ** 70)]
+    cases = []
+    for g in good:
+        cases.append([len(g)] + [x for b in g for x in c03.enc_atom(('int', b))])
+        for pos in range(len(g)):
+            for a in bad_atoms:
+                for mode in ('replace', 'insert'):
+                    atoms = [('int', b) for b in g]
+                    if mode == 'replace':
+                        atoms[pos] = a
+                    else:
+                        atoms.insert(pos, a)
+                    cases.append([len(atoms)] + [x for at in atoms for x in c03.enc_atom(at)])
+    for a in bad_atoms:
+        cases.append([1] + c03.enc_atom(a))
+    cases.append([0])
+    return cases
+
+
 def check_pyval(out):
     import mido
     n = 0
@@ -216,10 +273,11 @@ def run(out):
         out.nontrivial_extra += rec.get('distinct', 0)
         core.merge_into(out, rec, 'dec')
     check_pyval(out)
+    core.merge_into(out, core.eval_cases(COMP_ITEMS, item_cases(rng), impl_items), 'items (arbitrary Python items, model component 6)')
     out.rule = ('every byte string of length 0..2 over 0..255 (65 793) in both tiers, length 3 completely in the thorough tier '
                 '(16 843 009 in total) and for 15 first bytes in the quick tier; strings of length 3..6 over a boundary alphabet '
                 'incl. out-of-byte-range items, truncated/extended encodings of boundary messages, sysex with bad terminators; '
-                'list/bytes/bytearray/tuple inputs; non-integer items (implementation-only test). All sweep cases are distinct '
+                'list/bytes/bytearray/tuple inputs; sequences with one item that is not an integer (floats equal to bytes, strings, None, other objects, bools) replaced or inserted at every position of every message shape, compared with the model; Fractions, complex numbers etc. on the implementation only. All sweep cases are distinct '
                 'by construction; every case is non-trivial (a distinct input to the decoder).')
     out.sample({'component': 'dec', 'case': longer[3]})
     out.sample({'component': 'dec', 'case': [0xE0, 1, 2, 3]})
